@@ -1,6 +1,7 @@
 #![allow(dead_code)]
 //! verif-harness: runs the real aiken/uplc code next to the Lean models.
 //!   verif-harness <sub-command> [--seed N] [--tier quick|thorough] [--out file] [--replay file]
+mod c07;
 mod c15;
 mod driver;
 mod prng;
@@ -41,13 +42,15 @@ fn main() {
                 ctx.replay = Some(args[i + 1].clone());
                 i += 1;
             }
-            other => panic!("unknown argument {other}"),
+            // anything else belongs to the sub-command (it parses std::env::args itself)
+            _ => {}
         }
         i += 1;
     }
     // panics of the code under test are outcomes; keep stderr quiet
     std::panic::set_hook(Box::new(|_| {}));
     let rep = match sub.as_str() {
+        "c07-check" => c07::check(&ctx),
         "c15-names" => c15::names(&ctx),
         other => {
             eprintln!("unknown sub-command {other}");
